@@ -41,6 +41,13 @@ func RenameArgumentsAction(newNames []string) RewriteAction {
 				if assignment.Value.Argument != nil && assignment.Value.Argument.Name == previousName {
 					newOpt.Assignments[j].Value.Argument.Name = newNames[i]
 				}
+
+				// constraints are checked on the argument: they refer to it by name too
+				for k, constraint := range assignment.Constraints {
+					if constraint.Argument.Name == previousName {
+						newOpt.Assignments[j].Constraints[k].Argument.Name = newNames[i]
+					}
+				}
 			}
 		}
 
